@@ -788,7 +788,8 @@ theorem scan_sound (c : Cfg) : ∀ (is : List Nat) (s s' : State), s.dpc = .dsca
           intro hs; apply hg.2
           rw [hf1]; split <;> simp [*]
         have hd : s'.dpc = .dscan := by simp_all
-        simp [hpc, hgd, hd]
+        simp [hpc, hd]
+        exact hgd
       · simp [hg] at hi
 
 /-- the wait loop of `wait_defer` starts at L2 pc `dwloop` and ends at `d0` (the caller loops) -/
